@@ -177,6 +177,7 @@ def main(argv=None):
 
     if a.one:  # determinism self-test child: run one case, print its digest
         _MOD.warmup()
+        quiet_pydrex()
         r = _MOD.run_case(json.loads(a.one))
         print("OBS " + r["obs"])
         return 0
@@ -211,6 +212,7 @@ def main(argv=None):
         )
 
     _MOD.warmup()
+    quiet_pydrex()
     t_warm = time.time() - t0
 
     agg = {
@@ -229,7 +231,7 @@ def main(argv=None):
 
     jobs = max(1, min(a.jobs, len(keys)))
     serial = getattr(_MOD, "SERIAL", False) or jobs == 1
-    chunk = max(1, min(64, len(keys) // (jobs * 8) or 1))
+    chunk = getattr(_MOD, "CHUNK", 1 if len(keys) < 50000 else 8)
     if serial:
         it = map(_worker, keys)
         pool = None
@@ -437,6 +439,7 @@ def confirm(v):
 
 def do_replay(pid, rep):
     _MOD.warmup()
+    quiet_pydrex()
     if rep.get("case") is None:
         print("replay file has no case (cross-case finalize violation); re-run the check")
         return 2
